@@ -118,8 +118,8 @@ func run() int {
 	}
 	if replay != "" {
 		shards = 1
-		if abs, err := filepath.Abs(replay); err == nil {
-			replay = abs
+		if !filepath.IsAbs(replay) {
+			replay = filepath.Join(ev.Env("VERIF_CWD", "."), replay)
 		}
 	}
 
